@@ -1650,7 +1650,7 @@ func (p *wat2cWorker) buildFunc_ins(w io.Writer, fn *ast.Func, stk *valueTypeSta
 		sp0 := stk.Pop(token.I32)
 		sp1 := stk.Pop(token.I32)
 		ret0 := stk.Push(token.I32)
-		fmt.Fprintf(w, "%sR%d.i32 = R%d.i32 + R%d.i32; // %s\n",
+		fmt.Fprintf(w, "%sR%d.i32 = (int32_t)((uint32_t)R%d.i32 + (uint32_t)R%d.i32); // %s\n",
 			indent, ret0, sp1, sp0,
 			insString(i),
 		)
@@ -1658,7 +1658,7 @@ func (p *wat2cWorker) buildFunc_ins(w io.Writer, fn *ast.Func, stk *valueTypeSta
 		sp0 := stk.Pop(token.I32)
 		sp1 := stk.Pop(token.I32)
 		ret0 := stk.Push(token.I32)
-		fmt.Fprintf(w, "%sR%d.i32 = R%d.i32 - R%d.i32; // %s\n",
+		fmt.Fprintf(w, "%sR%d.i32 = (int32_t)((uint32_t)R%d.i32 - (uint32_t)R%d.i32); // %s\n",
 			indent, ret0, sp1, sp0,
 			insString(i),
 		)
@@ -1666,7 +1666,7 @@ func (p *wat2cWorker) buildFunc_ins(w io.Writer, fn *ast.Func, stk *valueTypeSta
 		sp0 := stk.Pop(token.I32)
 		sp1 := stk.Pop(token.I32)
 		ret0 := stk.Push(token.I32)
-		fmt.Fprintf(w, "%sR%d.i32 = R%d.i32 * R%d.i32; // %s\n",
+		fmt.Fprintf(w, "%sR%d.i32 = (int32_t)((uint32_t)R%d.i32 * (uint32_t)R%d.i32); // %s\n",
 			indent, ret0, sp1, sp0,
 			insString(i),
 		)
@@ -1674,7 +1674,7 @@ func (p *wat2cWorker) buildFunc_ins(w io.Writer, fn *ast.Func, stk *valueTypeSta
 		sp0 := stk.Pop(token.I32)
 		sp1 := stk.Pop(token.I32)
 		ret0 := stk.Push(token.I32)
-		fmt.Fprintf(w, "%sR%d.i32 = R%d.i32 / R%d.i32; // %s\n",
+		fmt.Fprintf(w, "%[1]sif(R%[4]d.i32 == 0 || (R%[3]d.i32 == INT32_MIN && R%[4]d.i32 == -1)) abort(); R%[2]d.i32 = R%[3]d.i32 / R%[4]d.i32; // %[5]s\n",
 			indent, ret0, sp1, sp0,
 			insString(i),
 		)
@@ -1682,7 +1682,7 @@ func (p *wat2cWorker) buildFunc_ins(w io.Writer, fn *ast.Func, stk *valueTypeSta
 		sp0 := stk.Pop(token.I32)
 		sp1 := stk.Pop(token.I32)
 		ret0 := stk.Push(token.I32)
-		fmt.Fprintf(w, "%sR%d.i32 = (int32_t)((uint32_t)(R%d.i32)/(uint32_t)(R%d.i32)); // %s\n",
+		fmt.Fprintf(w, "%[1]sif(R%[4]d.i32 == 0) abort(); R%[2]d.i32 = (int32_t)((uint32_t)(R%[3]d.i32)/(uint32_t)(R%[4]d.i32)); // %[5]s\n",
 			indent, ret0, sp1, sp0,
 			insString(i),
 		)
@@ -1690,7 +1690,7 @@ func (p *wat2cWorker) buildFunc_ins(w io.Writer, fn *ast.Func, stk *valueTypeSta
 		sp0 := stk.Pop(token.I32)
 		sp1 := stk.Pop(token.I32)
 		ret0 := stk.Push(token.I32)
-		fmt.Fprintf(w, "%sR%d.i32 = R%d.i32 %% R%d.i32; // %s\n",
+		fmt.Fprintf(w, "%[1]sif(R%[4]d.i32 == 0) abort(); R%[2]d.i32 = (R%[4]d.i32 == -1)? 0: R%[3]d.i32 %% R%[4]d.i32; // %[5]s\n",
 			indent, ret0, sp1, sp0,
 			insString(i),
 		)
@@ -1698,7 +1698,7 @@ func (p *wat2cWorker) buildFunc_ins(w io.Writer, fn *ast.Func, stk *valueTypeSta
 		sp0 := stk.Pop(token.I32)
 		sp1 := stk.Pop(token.I32)
 		ret0 := stk.Push(token.I32)
-		fmt.Fprintf(w, "%sR%d.i32 = (int32_t)((uint32_t)(R%d.i32)%%(uint32_t)(R%d.i32)); // %s\n",
+		fmt.Fprintf(w, "%[1]sif(R%[4]d.i32 == 0) abort(); R%[2]d.i32 = (int32_t)((uint32_t)(R%[3]d.i32)%%(uint32_t)(R%[4]d.i32)); // %[5]s\n",
 			indent, ret0, sp1, sp0,
 			insString(i),
 		)
@@ -1730,7 +1730,7 @@ func (p *wat2cWorker) buildFunc_ins(w io.Writer, fn *ast.Func, stk *valueTypeSta
 		sp0 := stk.Pop(token.I32)
 		sp1 := stk.Pop(token.I32)
 		ret0 := stk.Push(token.I32)
-		fmt.Fprintf(w, "%sR%d.i32 = R%d.i32 << (R%d.i32&63); // %s\n",
+		fmt.Fprintf(w, "%sR%d.i32 = (int32_t)((uint32_t)R%d.i32 << (R%d.i32&31)); // %s\n",
 			indent, ret0, sp1, sp0,
 			insString(i),
 		)
@@ -1738,7 +1738,7 @@ func (p *wat2cWorker) buildFunc_ins(w io.Writer, fn *ast.Func, stk *valueTypeSta
 		sp0 := stk.Pop(token.I32)
 		sp1 := stk.Pop(token.I32)
 		ret0 := stk.Push(token.I32)
-		fmt.Fprintf(w, "%sR%d.i32 = R%d.i32 >> (R%d.i32&63); // %s\n",
+		fmt.Fprintf(w, "%sR%d.i32 = R%d.i32 >> (R%d.i32&31); // %s\n",
 			indent, ret0, sp1, sp0,
 			insString(i),
 		)
@@ -1746,7 +1746,7 @@ func (p *wat2cWorker) buildFunc_ins(w io.Writer, fn *ast.Func, stk *valueTypeSta
 		sp0 := stk.Pop(token.I32)
 		sp1 := stk.Pop(token.I32)
 		ret0 := stk.Push(token.I32)
-		fmt.Fprintf(w, "%sR%d.i32 = (int32_t)((uint32_t)(R%d.i32)>>(uint32_t)(R%d.i32&63)); // %s\n",
+		fmt.Fprintf(w, "%sR%d.i32 = (int32_t)((uint32_t)(R%d.i32)>>(uint32_t)(R%d.i32&31)); // %s\n",
 			indent, ret0, sp1, sp0,
 			insString(i),
 		)
@@ -1754,7 +1754,7 @@ func (p *wat2cWorker) buildFunc_ins(w io.Writer, fn *ast.Func, stk *valueTypeSta
 		sp0 := stk.Pop(token.I32)
 		sp1 := stk.Pop(token.I32)
 		ret0 := stk.Push(token.I32)
-		fmt.Fprintf(w, "%sR%d.i32 = I32_ROTL(R%d.i32, R%d.i32); // %s\n",
+		fmt.Fprintf(w, "%sR%d.i32 = (int32_t)I32_ROTL((uint32_t)R%d.i32, (uint32_t)R%d.i32); // %s\n",
 			indent, ret0, sp1, sp0,
 			insString(i),
 		)
@@ -1762,7 +1762,7 @@ func (p *wat2cWorker) buildFunc_ins(w io.Writer, fn *ast.Func, stk *valueTypeSta
 		sp0 := stk.Pop(token.I32)
 		sp1 := stk.Pop(token.I32)
 		ret0 := stk.Push(token.I32)
-		fmt.Fprintf(w, "%sR%d.i32 = I32_ROTR(R%d.i32, R%d.i32); // %s\n",
+		fmt.Fprintf(w, "%sR%d.i32 = (int32_t)I32_ROTR((uint32_t)R%d.i32, (uint32_t)R%d.i32); // %s\n",
 			indent, ret0, sp1, sp0,
 			insString(i),
 		)
@@ -1791,7 +1791,7 @@ func (p *wat2cWorker) buildFunc_ins(w io.Writer, fn *ast.Func, stk *valueTypeSta
 		sp0 := stk.Pop(token.I64)
 		sp1 := stk.Pop(token.I64)
 		ret0 := stk.Push(token.I64)
-		fmt.Fprintf(w, "%sR%d.i64 = R%d.i64 + R%d.i64; // %s\n",
+		fmt.Fprintf(w, "%sR%d.i64 = (int64_t)((uint64_t)R%d.i64 + (uint64_t)R%d.i64); // %s\n",
 			indent, ret0, sp1, sp0,
 			insString(i),
 		)
@@ -1799,7 +1799,7 @@ func (p *wat2cWorker) buildFunc_ins(w io.Writer, fn *ast.Func, stk *valueTypeSta
 		sp0 := stk.Pop(token.I64)
 		sp1 := stk.Pop(token.I64)
 		ret0 := stk.Push(token.I64)
-		fmt.Fprintf(w, "%sR%d.i64 = R%d.i64 - R%d.i64; // %s\n",
+		fmt.Fprintf(w, "%sR%d.i64 = (int64_t)((uint64_t)R%d.i64 - (uint64_t)R%d.i64); // %s\n",
 			indent, ret0, sp1, sp0,
 			insString(i),
 		)
@@ -1807,7 +1807,7 @@ func (p *wat2cWorker) buildFunc_ins(w io.Writer, fn *ast.Func, stk *valueTypeSta
 		sp0 := stk.Pop(token.I64)
 		sp1 := stk.Pop(token.I64)
 		ret0 := stk.Push(token.I64)
-		fmt.Fprintf(w, "%sR%d.i64 = R%d.i64 * R%d.i64; // %s\n",
+		fmt.Fprintf(w, "%sR%d.i64 = (int64_t)((uint64_t)R%d.i64 * (uint64_t)R%d.i64); // %s\n",
 			indent, ret0, sp1, sp0,
 			insString(i),
 		)
@@ -1815,7 +1815,7 @@ func (p *wat2cWorker) buildFunc_ins(w io.Writer, fn *ast.Func, stk *valueTypeSta
 		sp0 := stk.Pop(token.I64)
 		sp1 := stk.Pop(token.I64)
 		ret0 := stk.Push(token.I64)
-		fmt.Fprintf(w, "%sR%d.i64 = R%d.i64 / R%d.i64; // %s\n",
+		fmt.Fprintf(w, "%[1]sif(R%[4]d.i64 == 0 || (R%[3]d.i64 == INT64_MIN && R%[4]d.i64 == -1)) abort(); R%[2]d.i64 = R%[3]d.i64 / R%[4]d.i64; // %[5]s\n",
 			indent, ret0, sp1, sp0,
 			insString(i),
 		)
@@ -1823,7 +1823,7 @@ func (p *wat2cWorker) buildFunc_ins(w io.Writer, fn *ast.Func, stk *valueTypeSta
 		sp0 := stk.Pop(token.I64)
 		sp1 := stk.Pop(token.I64)
 		ret0 := stk.Push(token.I64)
-		fmt.Fprintf(w, "%sR%d.i64 = (int64_t)((uint64_t)(R%d.i64)/(uint64_t)(R%d.i64)); // %s\n",
+		fmt.Fprintf(w, "%[1]sif(R%[4]d.i64 == 0) abort(); R%[2]d.i64 = (int64_t)((uint64_t)(R%[3]d.i64)/(uint64_t)(R%[4]d.i64)); // %[5]s\n",
 			indent, ret0, sp1, sp0,
 			insString(i),
 		)
@@ -1831,7 +1831,7 @@ func (p *wat2cWorker) buildFunc_ins(w io.Writer, fn *ast.Func, stk *valueTypeSta
 		sp0 := stk.Pop(token.I64)
 		sp1 := stk.Pop(token.I64)
 		ret0 := stk.Push(token.I64)
-		fmt.Fprintf(w, "%sR%d.i64 = (int64_t)((int64_t)(R%d.i64)%%(int64_t)(R%d.i64)); // %s\n",
+		fmt.Fprintf(w, "%[1]sif(R%[4]d.i64 == 0) abort(); R%[2]d.i64 = (R%[4]d.i64 == -1)? 0: R%[3]d.i64 %% R%[4]d.i64; // %[5]s\n",
 			indent, ret0, sp1, sp0,
 			insString(i),
 		)
@@ -1839,7 +1839,7 @@ func (p *wat2cWorker) buildFunc_ins(w io.Writer, fn *ast.Func, stk *valueTypeSta
 		sp0 := stk.Pop(token.I64)
 		sp1 := stk.Pop(token.I64)
 		ret0 := stk.Push(token.I64)
-		fmt.Fprintf(w, "%sR%d.i64 = (int64_t)((uint64_t)(R%d.i64)%%(uint64_t)(R%d.i64)); // %s\n",
+		fmt.Fprintf(w, "%[1]sif(R%[4]d.i64 == 0) abort(); R%[2]d.i64 = (int64_t)((uint64_t)(R%[3]d.i64)%%(uint64_t)(R%[4]d.i64)); // %[5]s\n",
 			indent, ret0, sp1, sp0,
 			insString(i),
 		)
@@ -1871,7 +1871,7 @@ func (p *wat2cWorker) buildFunc_ins(w io.Writer, fn *ast.Func, stk *valueTypeSta
 		sp0 := stk.Pop(token.I64)
 		sp1 := stk.Pop(token.I64)
 		ret0 := stk.Push(token.I64)
-		fmt.Fprintf(w, "%sR%d.i64 = R%d.i64 << (((uint64_t)R%d.i64)&63); // %s\n",
+		fmt.Fprintf(w, "%sR%d.i64 = (int64_t)((uint64_t)R%d.i64 << (((uint64_t)R%d.i64)&63)); // %s\n",
 			indent, ret0, sp1, sp0,
 			insString(i),
 		)
@@ -1895,7 +1895,7 @@ func (p *wat2cWorker) buildFunc_ins(w io.Writer, fn *ast.Func, stk *valueTypeSta
 		sp0 := stk.Pop(token.I64)
 		sp1 := stk.Pop(token.I64)
 		ret0 := stk.Push(token.I64)
-		fmt.Fprintf(w, "%sR%d.i64 = I64_ROTL(R%d.i64, R%d.i64); // %s\n",
+		fmt.Fprintf(w, "%sR%d.i64 = (int64_t)I64_ROTL((uint64_t)R%d.i64, (uint64_t)R%d.i64); // %s\n",
 			indent, ret0, sp1, sp0,
 			insString(i),
 		)
@@ -1903,7 +1903,7 @@ func (p *wat2cWorker) buildFunc_ins(w io.Writer, fn *ast.Func, stk *valueTypeSta
 		sp0 := stk.Pop(token.I64)
 		sp1 := stk.Pop(token.I64)
 		ret0 := stk.Push(token.I64)
-		fmt.Fprintf(w, "%sR%d.i64 = I64_ROTR(R%d.i64, R%d.i64); // %s\n",
+		fmt.Fprintf(w, "%sR%d.i64 = (int64_t)I64_ROTR((uint64_t)R%d.i64, (uint64_t)R%d.i64); // %s\n",
 			indent, ret0, sp1, sp0,
 			insString(i),
 		)
